@@ -467,13 +467,17 @@ def check (ps : PState) (evLine : String) (obs : List String) (fault : Option St
           for u in expectQ.eraseDups do
             let nq := (dps.filter fun x => x.1 == seid && x.2.1 == "query" && x.2.2.1 == "urr" && x.2.2.2.1 == u).length
             let times := (expectQ.filter (· == u)).length
-            if nq != times then
+            -- Query URR IEs of the same request query the data plane too (immediate reports, not final ones)
+            let explicit := ((idRules "qurr").filter (· == u)).length
+            if nq < times || nq > times + explicit then
               fs := fs ++ [s!"C12 URR {u} of session {hexN seid} lost its last referring PDR in this request ({times} time(s)); its usage was queried {nq} time(s) — the final report is due exactly once"]
             else
               -- what the data plane returned for that URR must come back flagged as termination report
               let rsp := (sends.filter fun s => s.kind == "modrsp").flatMap fun s => parseUsars (lookD s.f "usar" "_")
               let mine := rsp.filter (·.urr == u)
-              if mine.any fun r => r.trig / Gen.report.USAR_TRIG_TERMR % 2 == 0 then
+              -- (with a Query URR for the same URR in the request, its immediate reports sit next to the final one
+              --  and cannot be told apart here: the flag is then judged by the lock-step comparison only)
+              if explicit == 0 && mine.any fun r => r.trig / Gen.report.USAR_TRIG_TERMR % 2 == 0 then
                 fs := fs ++ [s!"C12 the final report of URR {u} (session {hexN seid}) is not marked as a termination report"]
         tbl := (seid, c) :: tbl.filter (·.1 != seid)
     -- the bookkeeping itself: a URR counts as referenced by precisely the PDRs whose current URR list names it,
